@@ -128,6 +128,9 @@ structure Params (V : Type) where
   rebind : Bool
   /-- does `dataScanner.nextContainer` accept a zero-length series bucket? (generated fact) -/
   tolerant : Bool
+  /-- injected I/O fault: the output file with this index (0 = first) cannot be created
+  (`family.newTableBuilder` fails); `none` = no fault -/
+  failAt : Option Nat
 
 /-- `compactFlusherStreamWriter.Commit` → `afterAdd`: after each committed entry the current output
 file is finished when `builder.Size() >= maxFileSize`; after the loop a non-empty builder is
@@ -157,9 +160,20 @@ def mergedEntries (agg : FieldType → V → V → V) (p : Params V) (inputs : L
     List (Nat × Block V) :=
   (mergeGroups p inputs).map (fun g => (g.1, mergeBlocks p.tolerant agg g.2))
 
-/-- `family.backgroundCompactionJob` / `compactJob.Run`. The merge compaction does not complete
-(nothing is installed) when `merger.Merge` returns an error for some key (`mergeFails`) or when
-the output needs a second file and the stream writer stays bound to the first one. -/
+/-- does the merge compaction fail (`doMerge` returns an error or panics)? `merger.Merge` returns an
+error for some key (`mergeFails`), or the output needs a second file and the stream writer stays
+bound to the first one, or an output file that is needed cannot be created (injected fault) -/
+def jobFails (agg : FieldType → V → V → V) (p : Params V) (inputs : List (File V)) : Bool :=
+  let chunks := splitLoop p.size p.maxFileSize (mergedEntries agg p inputs) [] 0
+  (mergeGroups p inputs).any (fun g => mergeFails p.tolerant g.2)
+    || (!p.rebind && decide (chunks.length > 1))
+    || (match p.failAt with
+        | some k => decide (k = 0 ∨ chunks.length > k)   -- file 0 is opened by `NewMerger` (`StreamWriter()`), the others on demand
+        | none => false)
+
+/-- `family.backgroundCompactionJob` / `compactJob.Run`. `mergeCompaction`: the results are installed
+only after `doMerge` returned nil; a failed merge compaction installs nothing (the deferred
+`cleanupCompaction` only abandons the open builder and releases the pending outputs). -/
 def compact (agg : FieldType → V → V → V) (p : Params V) (st : Family V) : Family V × Outcome :=
   if st.l0.length < p.threshold then (st, .skipped)
   else
@@ -167,11 +181,10 @@ def compact (agg : FieldType → V → V → V) (p : Params V) (st : Family V) :
     let rest := restUp st.l0 st.l1
     if st.l0.length = 1 ∧ up.isEmpty then
       ({ l0 := [], l1 := st.l1 ++ st.l0 }, .moved)
+    else if jobFails agg p (st.l0 ++ up) then (st, .crashed)
     else
-      let chunks := splitLoop p.size p.maxFileSize (mergedEntries agg p (st.l0 ++ up)) [] 0
-      if (mergeGroups p (st.l0 ++ up)).any (fun g => mergeFails p.tolerant g.2)
-          || (!p.rebind && chunks.length > 1) then (st, .crashed)
-      else ({ l0 := [], l1 := rest ++ chunks.filterMap mkFile }, .merged)
+      ({ l0 := [], l1 := rest ++
+          (splitLoop p.size p.maxFileSize (mergedEntries agg p (st.l0 ++ up)) [] 0).filterMap mkFile }, .merged)
 
 /-! ### histories -/
 
